@@ -399,14 +399,18 @@ func (c *ServerConn) Stop() error {
 	}
 
 	// The two flags are set, under the stream mutexes, by the goroutines
-	// that receive and send for the gbn connection.
-	c.receiveStreamMu.Lock()
-	receiveBoxCreated := c.receiveBoxCreated
-	c.receiveStreamMu.Unlock()
-
-	c.sendStreamMu.Lock()
-	sendBoxCreated := c.sendBoxCreated
-	c.sendStreamMu.Unlock()
+	// that receive and send for the gbn connection. If one of them is
+	// still at it (it is on its way out then: the connection has been
+	// closed above) we do not wait for it and try the deletion anyway.
+	receiveBoxCreated, sendBoxCreated := true, true
+	if c.receiveStreamMu.TryLock() {
+		receiveBoxCreated = c.receiveBoxCreated
+		c.receiveStreamMu.Unlock()
+	}
+	if c.sendStreamMu.TryLock() {
+		sendBoxCreated = c.sendBoxCreated
+		c.sendStreamMu.Unlock()
+	}
 
 	if receiveBoxCreated {
 		err := delCipherBox(c.ctx, c.client, c.receiveSID)
@@ -456,30 +460,37 @@ func (c *ServerConn) Close() error {
 		// The streams are set up, under their mutexes, by the
 		// goroutines that receive and send for the gbn connection. One
 		// of them may still be at it (the reader of a handshake that
-		// was given up, for instance), so take the mutexes here too.
-		c.receiveStreamMu.Lock()
-		if c.receiveStream != nil {
-			c.log.Debugf("Closing receive stream")
-			if err := c.receiveStream.CloseSend(); err != nil {
-				c.log.Errorf("Error closing receive stream: %v",
-					err)
+		// was given up, or a send that is being retried). We do not
+		// wait for it: it is on its way out, and its stream ends with
+		// the context of the gbn connection, which has been closed
+		// above.
+		if c.receiveStreamMu.TryLock() {
+			if c.receiveStream != nil {
+				c.log.Debugf("Closing receive stream")
+				err := c.receiveStream.CloseSend()
+				if err != nil {
+					c.log.Errorf("Error closing receive "+
+						"stream: %v", err)
 
-				returnErr = err
+					returnErr = err
+				}
 			}
+			c.receiveStreamMu.Unlock()
 		}
-		c.receiveStreamMu.Unlock()
 
-		c.sendStreamMu.Lock()
-		if c.sendStream != nil {
-			c.log.Debugf("Closing send stream")
-			if err := c.sendStream.CloseSend(); err != nil {
-				c.log.Errorf("Error closing send stream: %v",
-					err)
+		if c.sendStreamMu.TryLock() {
+			if c.sendStream != nil {
+				c.log.Debugf("Closing send stream")
+				err := c.sendStream.CloseSend()
+				if err != nil {
+					c.log.Errorf("Error closing send "+
+						"stream: %v", err)
 
-				returnErr = err
+					returnErr = err
+				}
 			}
+			c.sendStreamMu.Unlock()
 		}
-		c.sendStreamMu.Unlock()
 
 		close(c.quit)
 		c.log.Debugf("Connection closed")
